@@ -370,3 +370,7 @@ func GenHealthScript(t *rapid.T, mcf int) []int {
 	}
 	return s
 }
+
+func sortTimeline(p *Plan) {
+	sort.SliceStable(p.Timeline, func(i, j int) bool { return p.Timeline[i].At < p.Timeline[j].At })
+}
